@@ -194,6 +194,28 @@ Definition spec_match_url (es : list entry) (scheme host : str) : option cred :=
   | _ => spec_match es host
   end.
 
+(* class predicates of the precedence levels (k = the key looked up) *)
+Definition p_exact (k : str) (e : entry) : bool := is_exact e && str_eqb (join_host_port (e_host e) (e_port e)) k.
+Definition p_port (k : str) (e : entry) : bool := host_wild e && negb (port_wild e) && str_eqb (e_port e) k.
+Definition p_host (k : str) (e : entry) : bool := port_wild e && negb (host_wild e) && str_eqb (e_host e) k.
+Definition p_global (e : entry) : bool := host_wild e && port_wild e.
+
+(* two entries collide when they fall into the same class of the constructor's switch with the same key *)
+Definition same_key (e e' : entry) : bool :=
+  if host_wild e && port_wild e then p_global e'
+  else if host_wild e then p_port (e_port e) e'
+  else if port_wild e then p_host (e_host e) e'
+  else p_exact (join_host_port (e_host e) (e_port e)) e'.
+
+(* no entry collides with an earlier one *)
+Fixpoint no_dup_from (pre es : list entry) : bool :=
+  match es with
+  | [] => true
+  | e :: r => negb (existsb (same_key e) pre) && no_dup_from (pre ++ [e]) r
+  end.
+Definition no_duplicate (es : list entry) : bool := no_dup_from [] es.
+
+
 (* ---------------------------------------------------------------- credential headers *)
 Definition basic_value (c : cred) : str :=
   b "Basic " ++ b64_encode (fst c ++ [58] ++ snd c).
